@@ -341,7 +341,7 @@ pub fn run(ctx: &Ctx, out: &mut Out) {
     out.exhaustive = Some(pairs_done);
     out.extra.insert("pair_scope".into(), json!({"sizes": format!("1..={}", lim), "ordered_pairs_per_version": lim * lim, "completed": pairs_done}));
     // (c) random pairs over the whole range and longer sequences
-    for i in 0..ctx.share(2_000, 20_000) {
+    for i in 0..ctx.share(2_000, 400_000) {
         let v = *rng.pick(&versions);
         let a = rng.range(1, 255) as usize;
         let b = rng.range(1, 255) as usize;
@@ -351,7 +351,7 @@ pub fn run(ctx: &Ctx, out: &mut Out) {
             break;
         }
     }
-    for i in 0..ctx.share(800, 5_000) {
+    for i in 0..ctx.share(800, 100_000) {
         let v = *rng.pick(&versions);
         let len = rng.range(3, 8) as usize;
         let sizes: Vec<usize> = (0..len)
